@@ -254,14 +254,36 @@ class Facts:
         for k in ('resolved_canon', 'fn_canon'):
             c = fc.get(k)
             if c and c in self.by_canon:
-                return self.by_canon[c]
+                b = self.by_canon[c]
+                if k == 'fn_canon' and not fc.get('resolved') and self._overridden_default(b):
+                    return None
+                return b
         for k in ('resolved', 'fn'):
             c = fc.get(k)
             if c:
                 b = self.body(c)
                 if b is not None:
+                    if k == 'fn' and not fc.get('resolved') and self._overridden_default(b):
+                        return None
                     return b
         return None
+
+    def _overridden_default(self, b):
+        """b is the provided (default) body of a trait method that at least one workspace impl overrides: a call the compiler
+        could not resolve (generic / dyn receiver) does NOT denote this body."""
+        if b.is_closure or b.raw.get('def_kind') != 'AssocFn' or b.impl_self_adt or b.impl_trait:
+            return False
+        ov = getattr(self, '_overridden', None)
+        if ov is None:
+            ov = set()
+            for im in self.impls:
+                if im.get('trait'):
+                    for fn in im.get('fns') or []:
+                        if not (self.bodies.get(fn) is not None and self.bodies[fn].raw.get('synthesised_from')):
+                            ov.add('%s::%s' % (self.norm(im['trait']), fn.rsplit('::', 1)[-1]))
+            self._overridden = ov
+        tpath, _, name = b.path.rpartition('::')
+        return '%s::%s' % (self.norm(tpath), name) in ov
 
     def find_bodies(self, pred):
         return [b for b in self.bodies.values() if pred(b)]
